@@ -742,9 +742,6 @@ func (t *Transition) emitEvents() Result {
 			// mutate the clocks
 			m.activeStatesMx.Lock()
 			m.setActiveStates(called, t.TargetStates(), t.IsAuto())
-			// gather new clock values, overwrite fake TimeAfter
-			m.activeStatesMx.Unlock()
-			verifAt(m, "tx.applied")
 
 			// cache for subscriptions, mind partially accepted auto states
 			if t.IsAuto() {
@@ -756,8 +753,14 @@ func (t *Transition) emitEvents() Result {
 				t.cacheDeactivated = t.Exits
 			}
 
-			// cancel contexts as soon as known
+			// collect the expired contexts while still holding the lock, so a new
+			// state context can't slip in between the ticks and the collection
 			toCancel := m.subs.ProcessStateCtx(t.cacheActivated, t.cacheDeactivated)
+			// gather new clock values, overwrite fake TimeAfter
+			m.activeStatesMx.Unlock()
+			verifAt(m, "tx.applied")
+
+			// cancel contexts as soon as known
 			for _, cancel := range toCancel {
 				cancel()
 			}
